@@ -282,6 +282,18 @@ type prioBuild struct {
 	Entered         int           // simple: capacity of the entered channel
 	HandleExitDelay time.Duration // v1 Simple: time Handle needs to return once its context is cancelled
 	NilCtx          bool          // v1 variants: leave Opts.Ctx nil (the library must fall back to a background context)
+	ReuseInputsMap  bool          // the caller reuses its Inputs map after New (decoy channels under the same keys)
+}
+
+// reuseInputsMap does what a caller may do with ITS map once New has returned: it puts other
+// channels (holding items that must never come out of this discipline) under the same keys.
+func reuseInputsMap(inputs map[uint]<-chan PItem) {
+	for p := range inputs {
+		decoy := make(chan PItem, 2)
+		decoy <- PItem{P: p, Ch: -1, Seq: 0}
+		decoy <- PItem{P: p, Ch: -1, Seq: 1}
+		inputs[p] = decoy
+	}
 }
 
 func buildPrio(b prioBuild) (*prioSys, error) {
@@ -299,6 +311,9 @@ func buildPrio(b prioBuild) (*prioSys, error) {
 		d, err := v2prio.New(v2prio.Opts[PItem]{Divider: divider.Divider(b.Div), HandlersQuantity: b.H, Inputs: inputs})
 		if err != nil {
 			return nil, err
+		}
+		if b.ReuseInputsMap {
+			reuseInputsMap(inputs)
 		}
 		out := d.Output()
 		s.outCap = cap(out)
@@ -346,6 +361,9 @@ func buildPrio(b prioBuild) (*prioSys, error) {
 		if err != nil {
 			cancel()
 			return nil, err
+		}
+		if b.ReuseInputsMap {
+			reuseInputsMap(inputs)
 		}
 		s.outCap = b.OutCap
 		s.errCh = d.Err()
@@ -424,6 +442,9 @@ func buildPrio(b prioBuild) (*prioSys, error) {
 			if err != nil {
 				return nil, err
 			}
+			if b.ReuseInputsMap {
+				reuseInputsMap(inputs)
+			}
 			s.errCh = d.Err()
 			return s, nil
 		}
@@ -450,6 +471,9 @@ func buildPrio(b prioBuild) (*prioSys, error) {
 		if err != nil {
 			cancel()
 			return nil, err
+		}
+		if b.ReuseInputsMap {
+			reuseInputsMap(inputs)
 		}
 		s.errCh = d.Err()
 		s.stop, s.graceful, s.cancel = d.Stop, d.GracefulStop, cancel
